@@ -662,6 +662,17 @@ _RE_AT = re.compile(r'<<"AT", (\d+), (\d+)>>')
 _RE_CL = re.compile(r'<<"CL", (\d+), (\d+), (\[.*\])\s*>>')
 
 
+def _no_null(x):
+    """The Json module of the CommunityModules cannot deserialize null: write "" instead."""
+    if x is None:
+        return ''
+    if isinstance(x, dict):
+        return {k: _no_null(v) for k, v in x.items()}
+    if isinstance(x, (list, tuple)):
+        return [_no_null(v) for v in x]
+    return x
+
+
 def validate_traces(ctx, module, traces, what='', chunk=20000, timeout=1200, workers=None, diag=True):
     """Validate `traces` (list of JSON-able dicts) with the acceptor spec `module`
     (which reads IOEnv.TRACE_FILE and prints <<"ACC", tid>> for accepted traces).
@@ -676,7 +687,7 @@ def validate_traces(ctx, module, traces, what='', chunk=20000, timeout=1200, wor
         try:
             fn = os.path.join(d, 'traces.json')
             with open(fn, 'w') as f:
-                json.dump(part, f)
+                json.dump(_no_null(part), f)
             res = run_tlc(module, cfg, workers=workers or NPROC, timeout=timeout, env={'TRACE_FILE': fn}, xmx='8g')
             ctx.add_tlc(res, what or ('trace validation ' + module))
             if res.exit != 0 or res.error or res.violated:
@@ -689,7 +700,7 @@ def validate_traces(ctx, module, traces, what='', chunk=20000, timeout=1200, wor
             if rej and diag:
                 sub = [part[k] for k in rej[:200]]
                 with open(fn, 'w') as f:
-                    json.dump(sub, f)
+                    json.dump(_no_null(sub), f)
                 res2 = run_tlc(module, cfg, workers=1, timeout=timeout, env={'TRACE_FILE': fn, 'DIAG': '1'}, xmx='4g')
                 at = {}
                 cl = {}
